@@ -36,7 +36,7 @@ TYPES = [
 
 # number of items Verus must report (verified + errors) per unit: a guard against silently
 # skipped items.  Changes only when shim.rs / this file change, never with an edit of /repo.
-EXPECTED_ITEMS = {"safety": 34, "notrap": 31, "vacuity": 25}
+EXPECTED_ITEMS = {"safety": 35, "notrap": 32, "vacuity": 26}
 
 BOTH = ["safety", "notrap"]
 SAFETY = ["safety"]
